@@ -1,7 +1,10 @@
 import MxModel.Kernels.PathCodec
 import MxModel.Kernels.DocQuote
+import MxModel.Kernels.SaveFiles
 /-! Line-protocol driver for the two C04 codecs (`mxdriver codec`): ops `a2r r2a a2rt r2at` (relative
-addresses), `quote lex read doc sj` (documentation strings).
+addresses), `quote lex read doc sj` (documentation strings), `saves` (a history of writes to one path by
+file name: `saves <fmt>:<max_backups>:<name>;<name>…|…` → the slots after every write,
+`<slot>=<kind>[<name>@<write>;…]`).
 
 Strings travel as decimal code points joined by `,` (`-` = empty string); tuple elements as
 `s:<string>` (a name) or `k:<string>` (an argument tuple, opaque), joined by `;` (`()` = empty
@@ -31,6 +34,35 @@ def encElem : Elem → String
 
 def encTuple (t : List Elem) : String :=
   if t.isEmpty then "()" else ";".intercalate (t.map encElem)
+
+/-! the save step by file name -/
+open MxModel.SaveFiles in
+def decWrite (s : String) : Option Write :=
+  match s.splitOn ":" with
+  | [f, mb, ns] => do
+    let k ← if f = "dir" then some Kind.dir else if f = "zip" then some Kind.zip else none
+    let maxB ← mb.toNat?
+    let names ← if ns = "." then some [] else (ns.splitOn ";").mapM (fun t => (decStr t).map String.ofList)
+    some ⟨k, maxB, names⟩
+  | _ => none
+
+open MxModel.SaveFiles in
+def showNode (i : Nat) : Node → Option String
+  | .absent => none
+  | .node k es =>
+    some (toString i ++ "=" ++ (match k with | .dir => "dir" | .zip => "zip") ++ "[" ++
+      ";".intercalate (es.map (fun e => encStr e.1.toList ++ "@" ++ toString e.2)) ++ "]")
+
+open MxModel.SaveFiles in
+def showFS (fs : FS) : String :=
+  " ".intercalate ((List.range 8).filterMap (fun i => showNode i (fs i)))
+
+open MxModel.SaveFiles in
+def stepSaves (arg : String) : String :=
+  match (arg.splitOn "|").mapM decWrite with
+  | none => "bad-op"
+  | some ws =>
+    "ok " ++ " | ".intercalate ((run ws).map (fun o => match o with | none => "err" | some fs => showFS fs))
 
 def step (line : String) : String :=
   match (line.splitOn " ").filter (· ≠ "") with
@@ -87,6 +119,7 @@ def step (line : String) : String :=
       match readLiteral (quoteDocstring doc) with
       | none => "unreadable"
       | some v => if v = doc then "same" else "changed " ++ encStr v
+  | ["saves", arg] => stepSaves arg
   | ["sj", d] =>
     -- "\n".join(text.splitlines())
     match decStr d with
